@@ -402,6 +402,26 @@ def handle : Handler := fun op inp impl =>
         if !ownOk then s!"checkBinaryMetadata reports {strList own} on -bin values written by the repository's own encoder"
         else s!"binary metadata: examined values {(BinMetaSpec.examinedValues md).map hex}, feedback {fb}",
       cls := if !isNull own then "own" else if (BinMetaSpec.examinedValues md).all BinMetaSpec.unpaddedB64 then "well-formed" else "malformed" }
+  | "capture" =>
+    let size := nat (field inp "size")
+    let recv := nat (field impl "received")
+    let capt := nat (field impl "captured")
+    -- capture is the identity (Props.C13.capture_identity): the buffer holds what the client received, the whole body
+    let holds := bool (field impl "same") && recv == size && capt == size
+    { agree := holds, holds := holds, nontrivial := size > 0, model := toJson size, cls := if size > 65536 then "large" else "small",
+      why := if holds then "" else
+        s!"the capturing body reader handed the client {recv} bytes of a body of {size} bytes but kept {capt} for examineWireDetails (chunks {(field inp "chunks").compress}): the examiner does not see the bytes the client received" }
+  | "zbig" =>
+    let mutK := str (field inp "mut")
+    let fb := strList (field impl "fb")
+    let direct := strList (field impl "direct")
+    let what := str (field inp "what")
+    let holds := if mutK == "" then fb.isEmpty && bool (field impl "ok") else !fb.isEmpty
+    { agree := sortStrings fb == sortStrings direct, holds := holds, nontrivial := true, model := toJson (sortStrings direct),
+      cls := what ++ (if mutK == "" then "" else ":" ++ mutK),
+      why := if holds then "" else
+        if mutK == "" then s!"feedback {fb} on a well-formed {what} payload of {nat (field impl "len")} bytes (coding {nat (field inp "comp")}); on the same payload handed over directly the examiner says {direct}"
+        else s!"a {what} payload of {nat (field impl "len")} bytes (coding {nat (field inp "comp")}) with a malformation at its very end ({mutK}) draws no feedback through the exchange; handed over directly the examiner says {direct}" }
   | "cerr" | "cend" => judgeJSON (op == "cend") (str (field inp "kind")) impl
   | "zcerr" | "zcend" =>
     -- the same judgement as cerr / cend, on the feedback of the complete exchange
